@@ -432,6 +432,10 @@ def main(pid, argv=None):
     ck.coverage["disagreements"] = ndis
     if pid == "C05" and not ck.replay:
         somersault_decode(ck)
+    if pid == "C08" and not ck.replay:
+        condensed_mask_corpus(ck)
+    if pid == "C02" and not ck.replay:
+        wide_integer_corpus(ck)
     ck.assumptions = [
         "round-trip oracles exempt value assignments for which ODX promises no round trip: objects with a BIT-MASK "
         "(masked bits are dropped by definition), non-injective compu methods, encodings which issued an overlap warning",
@@ -444,6 +448,67 @@ def main(pid, argv=None):
         "nesting <= 3, BYTE-SIZE smaller/equal/larger, fields with 0..3 items) x value streams valid/boundary/ill-typed, "
         "byte strings = own encodings, their prefixes and single-byte mutations, random strings; distinct by (description, input); "
         "non-trivial = every case (each has at least one parameter or a non-empty input)")
+
+
+def condensed_mask_corpus(ck):
+    """corpus case of the recorded finding: condensed BIT-MASK, static length = popcount but BIT-LENGTH bits are emplaced"""
+    xml = cc.emit_document([("rq", [cc.param("p1", dict(k="coded", dct=cc.std(cc.BUINT, 8), v=0x22)),
+                                    cc.param("p2", dict(k="value", dop=cc.simple(cc.std(cc.BUINT, 16, mask=0x0FF0)), dflt=None),
+                                             bitpos=2)], False)])
+    xml = xml.replace('<BIT-MASK>FF0</BIT-MASK>', '<BIT-MASK>0FF0</BIT-MASK>').replace(
+        'BASE-DATA-TYPE="A_UINT32" xsi:type="STANDARD-LENGTH-TYPE"><BIT-LENGTH>16',
+        'BASE-DATA-TYPE="A_UINT32" IS-CONDENSED="true" xsi:type="STANDARD-LENGTH-TYPE"><BIT-LENGTH>16')
+    import xml.etree.ElementTree as ET
+    from odxtools.database import Database
+    try:
+        db = Database()
+        db._process_xml_tree(ET.fromstring(xml))
+        db.refresh()
+        rq = db.diag_layers[0].diag_layer_raw.requests[0]
+        sb = rq.get_static_bit_length()
+        r = cc.impl_encode(rq, {"p2": 0x0AB0})
+    except Exception as e:  # noqa
+        ck.violation(f"condensed bit mask corpus case failed to load: {e}", {"xml": xml})
+        return
+    ck.count(("condensed", xml))
+    if r[0] == 0 and sb is not None and 8 * len(r[1]) != sb:
+        kf = ck.match_known({"condensed-bit-mask", "static length"})
+        if kf:
+            ck.known_finding(kf["id"], kf["what"])
+        else:
+            ck.violation(f"static bit length {sb} but the encoding has {8 * len(r[1])} bits (condensed BIT-MASK)",
+                         {"xml": xml, "value": {"p2": 0x0AB0}, "pdu": bytes(r[1]).hex()})
+
+
+def wide_integer_corpus(ck):
+    """corpus case of the recorded finding: integers over 64 bits depend on the bitstruct backend"""
+    ps = [cc.param("p1", dict(k="value", dop=cc.simple(cc.std(cc.BUINT, 72)), dflt=None))]
+    try:
+        obj = cc.load_messages([("rq", ps, False)])["rq"]
+    except Exception as e:  # noqa
+        ck.violation(f"wide integer corpus case failed to load: {e}", {"params": ps})
+        return
+
+    class C:
+        pass
+
+    c = C()
+    c.obj, c.params, c.is_resp, c.name = obj, ps, False, "rq"
+    c.encs = [dict(value={"p1": 1 << 70}, req=None, impl=cc.impl_encode(obj, {"p1": 1 << 70}))]
+    c.decs = []
+    try:
+        pi = pure_backend_results([c])[0]["encs"][0]
+    except Exception as e:  # noqa
+        ck.note_broken(f"pure-python backend run failed: {e}")
+        return
+    ck.count(("wide", 72))
+    if cr.norm_enc_impl(pi) != cr.norm_enc_impl(c.encs[0]["impl"]):
+        kf = ck.match_known({"integer-over-64-bits", "backend"})
+        if kf:
+            ck.known_finding(kf["id"], kf["what"])
+        else:
+            ck.violation(f"bitstruct.c and pure-python bitstruct disagree on a 72 bit integer: {c.encs[0]['impl']} vs {pi}",
+                         rep(c, value={"p1": 1 << 70}))
 
 
 def known_tags(c, e, bad):
